@@ -6,7 +6,7 @@ package main
 //                                        families registered, standalone mode) on 127.0.0.1:<port>;
 //                                        exits when its stdin is closed (the parent went away)
 //   cmdtable                             print the registered command names, one per line
-//   tcp <addr> <cases> <out> [workers]   one fresh connection per case:
+//   tcp <addr> <cases> <out> [workers] [selfclose_ms]   one fresh connection per case:
 //        case line  <id> TAB <hex stream> TAB <sizes csv | one | bytes> TAB <mode> TAB <pause_every> TAB <probe hex | ->
 //        mode F: write the chunks (TCP_NODELAY, one write per chunk), half-close, read to EOF
 //        mode E: write the chunks and keep the sending side open; the server is expected to
@@ -192,15 +192,48 @@ func runCase(addr string, stream []byte, sizes []int, mode string, pauseEvery in
 		select {
 		case r := <-done:
 			return r.status, r.data
-		case <-time.After(selfCloseWait):
+		case <-time.After(patience(selfCloseWait)):
+			slow()
 			c.CloseWrite()
 			r := <-done
 			return r.status + "-AFTER-SHUTDOWN", r.data
 		}
 	}
 	c.CloseWrite()
+	c.SetReadDeadline(time.Now().Add(patience(readDeadline)))
 	r := <-done
+	if r.status == "TIMEOUT" {
+		slow()
+	}
 	return r.status, r.data
+}
+
+// Waiting out a deadline only happens when something is already wrong; after a few such cases
+// the remaining ones get a short deadline so that a broken server is reported in minutes.
+var (
+	slowMu    sync.Mutex
+	slowCount int
+)
+
+func slow() {
+	slowMu.Lock()
+	slowCount++
+	slowMu.Unlock()
+}
+
+func tooSlow() bool {
+	slowMu.Lock()
+	defer slowMu.Unlock()
+	return slowCount >= 6
+}
+
+func patience(d time.Duration) time.Duration {
+	slowMu.Lock()
+	defer slowMu.Unlock()
+	if slowCount >= 3 && d > 1500*time.Millisecond {
+		return 1500 * time.Millisecond
+	}
+	return d
 }
 
 var pingCmd = []byte("*1\r\n$4\r\nPING\r\n")
@@ -245,12 +278,17 @@ func (w *witness) check(probe []byte) (string, []byte) {
 
 func cmdTCP(args []string) error {
 	if len(args) < 3 {
-		return fmt.Errorf("usage: tcp <addr> <cases> <out> [workers]")
+		return fmt.Errorf("usage: tcp <addr> <cases> <out> [workers] [selfclose_ms]")
 	}
 	addr := args[0]
 	nw := 6
 	if len(args) > 3 {
 		nw, _ = strconv.Atoi(args[3])
+	}
+	if len(args) > 4 { // how long a mode-E case waits for the server to close by itself
+		if ms, err := strconv.Atoi(args[4]); err == nil && ms > 0 {
+			selfCloseWait = time.Duration(ms) * time.Millisecond
+		}
 	}
 	data, err := os.ReadFile(args[1])
 	if err != nil {
@@ -296,6 +334,12 @@ func cmdTCP(args []string) error {
 					continue
 				}
 				pe, _ := strconv.Atoi(f[4])
+				if tooSlow() {
+					// several cases already waited out a deadline: the server is broken in a way
+					// the caller will report from those; do not spend minutes on the rest
+					results[i] = f[0] + "\tSKIPPED\t-\tWOK\t-"
+					continue
+				}
 				st, rx := runCase(addr, stream, parseSizes(f[2], len(stream)), f[3], pe)
 				ws, prx := w.check(probe)
 				h := func(b []byte) string {
